@@ -63,7 +63,7 @@ def parse_stderr(txt):
 def run_verus(gen, modules, rlimit=30, timeout=900, extra=''):
     mods = ' '.join('--verify-module %s' % m for m in modules)
     cmd = 'verus %s --multiple-errors 40 --num-threads %d --output-json --time-expanded --triggers-mode silent --rlimit %d %s %s' % (gen, NTHREADS, rlimit, mods, extra)
-    rc, out, err, wall = sh(cmd, timeout=timeout)
+    rc, out, err, wall = sh(cmd, timeout=timeout, cwd=os.path.dirname(os.path.abspath(gen)))     # rustc drops its `*.long-type-*.txt` files into the cwd
     js = None
     try:
         js = json.loads(out)
@@ -301,7 +301,7 @@ def main():
             sha = hashlib.sha256(open(gen, 'rb').read()).hexdigest()
             if os.path.exists(cache) and sha in open(cache).read().split():
                 break                                   # this exact text was already type-checked by an earlier check of this session
-            rc, out, err, wall = sh('verus %s --no-verify --triggers-mode silent --num-threads 4' % gen, timeout=600)
+            rc, out, err, wall = sh('verus %s --no-verify --triggers-mode silent --num-threads 4' % gen, timeout=600, cwd=os.path.dirname(os.path.abspath(gen)))
             if rc == 0:
                 open(cache, 'a').write(sha + '\n')
             bad = {}
